@@ -217,7 +217,13 @@ func genReq(t *rapid.T, full bool) Req {
 		q.Params = append(q.Params, NV{"notAParameter", 42})
 	}
 	if rapid.IntRange(0, 3).Draw(t, "extraI") == 0 {
-		q.Inputs = append(q.Inputs, NS{"notAnInput", pbt.Fs(cc.Inputs[0])})
+		// a series the model does not know, of any length (it must simply be ignored)
+		extra := simref.Series(t, rapid.IntRange(1, 30).Draw(t, "extraLen"), 10, "extraSeries")
+		q.Inputs = append(q.Inputs, NS{"notAnInput", pbt.Fs(extra)})
+	}
+	if !full && rapid.IntRange(0, 11).Draw(t, "onlyUnknown") == 0 {
+		// nothing but unknown series: there is no input to run on
+		q.Inputs = []NS{{"notAnInput", pbt.Fs(cc.Inputs[0])}}
 	}
 	// any order
 	if rapid.Bool().Draw(t, "shuffle") {
@@ -298,6 +304,32 @@ func direct(q Req) (desc sim.ModelDescription, out [][]float64, st []float64, mi
 
 // compareResponse checks a decoded response of a structured request against the direct run.
 func compareResponse(q Req, resp response, r *pbt.Result) {
+	known := false
+	for _, g := range q.Inputs {
+		for _, in := range simref.New(q.Model).Description().Inputs {
+			if in == g.Name {
+				known = true
+			}
+		}
+	}
+	if !known {
+		// no series of the model's own inputs: nothing can be run; the answer must say so and carry no results
+		r.Label("no-known-input-series")
+		r.NonTrivial = true
+		if len(resp.RunResults.Outputs) > 0 && string(resp.RunResults.Outputs) != "null" {
+			r.Failf("%s: no input series of the model was supplied, yet the answer carries outputs %s (log %q)", q.Model, trunc(string(resp.RunResults.Outputs), 200), resp.Log)
+		}
+		nonEmpty := false
+		for _, l := range resp.Log {
+			if strings.Contains(l, "input") || strings.Contains(l, "Input") {
+				nonEmpty = true
+			}
+		}
+		if !nonEmpty {
+			r.Failf("%s: no input series of the model was supplied and the log does not mention it: %q", q.Model, resp.Log)
+		}
+		return
+	}
 	desc, out, st, missP, missI := direct(q)
 	T := 0
 	if len(out) > 0 {
